@@ -80,6 +80,9 @@ type Settings struct {
 	IfaceMarshal string  `json:"iface_marshal,omitempty"` // "" default | stdjson | wrap
 	ClockSec     int64   `json:"clock_sec,omitempty"`
 	ClockNsec    int64   `json:"clock_nsec,omitempty"`
+	// GlobalLow: 0 = global level Trace (the default); n > 0 = SetGlobalLevel(Level(-n)), which
+	// admits the custom verbose levels below Trace that log.go documents as legal
+	GlobalLow int `json:"global_low,omitempty"`
 }
 
 // HookSpec: kinds  add (Ops are added to the event) | discard | getctx (adds
